@@ -454,56 +454,75 @@ def nd_from_json(v):
 
 
 # ------------------------------------------------------------------ one same-CRS case through everything
-def xr_pair(ns, case, dtype, data, attr_nd, dst_nd, sched, seed, tdim=0, tchunk=1, inject=None):
-    """real xr_reproject on numpy-backed and dask-backed copies -> (whole, chunked)"""
+def planes_of(arr, lead, trail):
+    """list of the 2-d Y/X planes of an array with optional leading / trailing extra axis"""
+    a = np.asarray(arr)
+    if trail is not None:
+        a = np.moveaxis(a, -1, 0)
+    return a.reshape((-1,) + a.shape[-2:])
+
+
+def xr_pair(ns, case, dtype, data, attr_nd, dst_nd, sched, seed, lead=None, trail=None):
+    """real xr_reproject on numpy-backed and dask-backed copies -> (whole, chunked);
+    `lead` / `trail`: dask chunks (tuple) of an extra leading (time) / trailing (band) axis of `data`"""
     sg, dg, _ = geoboxes(ns, case)
-    if tdim:
-        full = data  # (T, H, W)
-        chunks = ((tchunk,) * (tdim // tchunk) + ((tdim % tchunk,) if tdim % tchunk else ()), case["sy"], case["sx"])
-    else:
-        full = data
-        chunks = (case["sy"], case["sx"])
-    ax = 1 if tdim else 0
-    xn = ns.wrap_xr(full, sg, nodata=attr_nd, axis=ax)
-    xd = ns.wrap_xr(ns.da.from_array(full, chunks=chunks), sg, nodata=attr_nd, axis=ax)
+    chunks = (() if lead is None else (tuple(lead),)) + (case["sy"], case["sx"]) + (() if trail is None else (tuple(trail),))
+    ax = 1 if lead is not None else 0
+    xn = ns.wrap_xr(data, sg, nodata=attr_nd, axis=ax)
+    xd = ns.wrap_xr(ns.da.from_array(data, chunks=chunks), sg, nodata=attr_nd, axis=ax)
     whole = ns.xr_reproject(xn, dg, resampling="nearest", dst_nodata=dst_nd).values
     lazy = ns.xr_reproject(xd, dg, resampling="nearest", dst_nodata=dst_nd, chunks=(case["cy"], case["cx"]))
     chunked = compute(ns, lazy.data, sched, seed)
-    return whole, chunked
+    return whole, chunked, tuple(lazy.shape)
 
 
-def oracle_pair(R: Run, ns, case, dtype, data, attr_nd, dst_nd, sched, seed, tdim=0, tchunk=1, tag=""):
-    cj = case_json(case, dtype=dtype, data=np.asarray(data).astype(float).tolist() if dtype != "bool" else np.asarray(data).astype(int).tolist(),
-                   attr_nd=nd_json(attr_nd), dst_nd=nd_json(dst_nd), sched=sched, sseed=seed, tdim=tdim, tchunk=tchunk)
+def data_json(data, dtype):
+    return np.asarray(data).astype(int if dtype == "bool" else float).tolist()
+
+
+def oracle_pair(R: Run, ns, case, dtype, data, attr_nd, dst_nd, sched, seed, lead=None, trail=None, tag=""):
+    cj = case_json(case, dtype=dtype, data=data_json(data, dtype),
+                   attr_nd=nd_json(attr_nd), dst_nd=nd_json(dst_nd), sched=sched, sseed=seed,
+                   lead=None if lead is None else list(lead), trail=None if trail is None else list(trail))
+    extra = lead is not None or trail is not None
     sig = f"xr|{tag}|{DTYPES[dtype][0]}|nd={'a' if attr_nd is not None else '-'}{'d' if dst_nd is not None else '-'}|{sched}" + (
-        "|time" if tdim else "")
+        "|lead" if lead is not None else "") + ("|trail" if trail is not None else "")
     try:
-        whole, chunked = xr_pair(ns, case, dtype, data, attr_nd, dst_nd, sched, seed, tdim, tchunk)
+        whole, chunked, declared = xr_pair(ns, case, dtype, data, attr_nd, dst_nd, sched, seed, lead, trail)
     except Exception as e:  # pylint: disable=broad-except
-        R.oracle(False, "reproject-raises", cj, f"xr_reproject raised {type(e).__name__}: {e}", sig=sig)
+        R.oracle(False, "reproject-raises", cj, f"xr_reproject / compute raised {type(e).__name__}: {e}", sig=sig)
         return None
+    # shape: the computed array has the declared shape = shape of the in-memory result
+    want_shape = (() if lead is None else (sum(lead),)) + (case["dh"], case["dw"]) + (() if trail is None else (sum(trail),))
+    ok_shape = tuple(chunked.shape) == tuple(whole.shape) == tuple(declared) == want_shape
+    R.oracle(ok_shape, "result-shape-differs", cj,
+             f"computed dask result has shape {tuple(chunked.shape)}, declared {tuple(declared)}, in-memory result "
+             f"{tuple(whole.shape)}, expected {want_shape} (extra-axis chunks lead={lead} trail={trail}, dst chunks "
+             f"{case['cy']}x{case['cx']})", sig=sig + "|shape", trivial=not extra)
+    if not ok_shape:
+        return None
+    wp, cp = planes_of(whole, lead, trail), planes_of(chunked, lead, trail)
     ok = same(whole, chunked)
     what = ""
     key = "chunked-differs-from-whole"
     if not ok:
-        diff = ~((whole == chunked) | ((whole != whole) & (chunked != chunked)))
+        diff = ~((wp == cp) | ((wp != wp) & (cp != cp)))
         ez = edge_zero(case)
-        if not (diff & ~(ez if not tdim else ez[None])).any():
+        if not (diff & ~ez[None]).any():
             key = "chunked-differs-from-whole:centre-exactly-on-source-edge"
         bad = np.argwhere(diff)
         p = tuple(int(i) for i in bad[0])
-        what = (f"dask-backed differs from numpy-backed at {len(bad)} pixels, first {p}: chunked={chunked[p]} "
-                f"whole={whole[p]} (dtype {dtype}, nodata attr={attr_nd} dst={dst_nd}, src chunks {case['sy']}x{case['sx']}, "
-                f"dst chunks {case['cy']}x{case['cx']}, scheduler {sched})")
+        what = (f"dask-backed differs from numpy-backed at {len(bad)} pixels, first (plane, y, x)={p}: chunked={cp[p]} "
+                f"whole={wp[p]} (dtype {dtype}, nodata attr={attr_nd} dst={dst_nd}, src chunks {case['sy']}x{case['sx']}, "
+                f"dst chunks {case['cy']}x{case['cx']}, extra-axis chunks lead={lead} trail={trail}, scheduler {sched})")
     R.oracle(ok, key, cj, what, sig=sig)
     # fill claim, evaluated on the chunked result with exact rationals
     sn = attr_nd
     dn = dst_nd if dst_nd is not None else sn
     fv = spec_fill(dtype, sn, dn)
     un = unreached_exact(case)
-    planes = chunked if tdim else chunked[None]
     okf, whatf = True, ""
-    for t, pl in enumerate(planes):
+    for t, pl in enumerate(cp):
         vals = pl[un]
         good = (vals != vals) if (isinstance(fv, np.floating) and math.isnan(float(fv))) else (vals == fv)
         if not np.all(good):
@@ -516,12 +535,121 @@ def oracle_pair(R: Run, ns, case, dtype, data, attr_nd, dst_nd, sched, seed, tdi
     if un.all():
         R.count("disjoint-all-fill")
     # value claim against an independent exact reference when no nodata masking interferes
-    if attr_nd is None and dst_nd is None and not tdim:
-        ref = sampled_exact(case, np.asarray(data), fv)
+    if attr_nd is None and dst_nd is None:
         ez = edge_zero(case)
-        R.oracle(same(ref[~ez], chunked[~ez]), "chunked-differs-from-exact-nearest", cj,
+        okr = True
+        for pl, sp in zip(cp, planes_of(data, lead, trail)):
+            ref = sampled_exact(case, sp, fv)
+            okr &= same(ref[~ez], pl[~ez])
+        R.oracle(okr, "chunked-differs-from-exact-nearest", cj,
                  "chunked result differs from floor-of-mapped-centre reference", sig="exact-ref")
     return whole, chunked
+
+
+# ------------------------------------------------------------------ several products of one dask source, one graph
+def variant_case(rng, case):
+    """another destination for the same source: shifted by whole destination pixels, other size / chunks"""
+    for _ in range(20):
+        c = dict(case)
+        a, b, cc, d, e, f = case["A"]
+        kx, ky = rng.randint(-2, 2), rng.randint(-2, 2)
+        c["A"] = (a, b, cc + a * kx + b * ky, d, e, f + d * kx + e * ky)
+        c["D"] = amul(case["S"], c["A"])
+        c["dh"], c["dw"] = rng.randint(1, 7), rng.randint(1, 7)
+        c["cy"], c["cx"] = rng.randint(1, c["dh"] + 1), rng.randint(1, c["dw"] + 1)
+        if not edge_zero(c).any():
+            return c
+    return case
+
+
+def gen_joint(rng, dts):
+    case = gen_case(rng, rotated=rng.random() < 0.3, small=True)
+    dtype = rng.choice([d for d in dts if d != "bool"])
+    isf = dtype.startswith("float")
+    nd = rng.choice([0, 3])
+    other = rng.choice([255 if dtype in ("uint8", "uint16", "int16", "int32") else 7, 5]) if not isf else -7777
+    # nodata pairs (attribute, dst_nodata); several resolve to the same fill value
+    pool = [(nd, other), (None, other), (nd, None), (None, nd), (None, None), (nd, nd)]
+    if not isf:
+        pool.append((3 - nd, other))
+    rng.shuffle(pool)
+    k = rng.randint(2, 4)
+    prods = []
+    alt = variant_case(rng, case)
+    for attr, dn in pool[:k]:
+        prods.append({"attr": attr, "dn": dn, "resampling": "nearest" if rng.random() < 0.8 else rng.choice(["bilinear", "cubic"]),
+                      "alt": rng.random() < 0.25})
+    data = gen_data(rng, (case["sh"], case["sw"]), dtype, (nd,))
+    return {"kind": "joint", "case": case_json(case), "alt": case_json(alt), "dtype": dtype, "data": data_json(data, dtype),
+            "prods": prods, "sched": rng.choice(SCHEDS), "sseed": rng.randrange(10**6), "dataset": rng.random() < 0.5}
+
+
+def joint_one(R: Run, ns, cj):
+    """every product of ONE dask source, computed together in one graph, equals (a) the same product computed
+    on its own and (b), nearest, its own in-memory reprojection"""
+    import xarray as xr
+
+    case, alt = case_from_json(cj["case"]), case_from_json(cj["alt"])
+    dtype = cj["dtype"]
+    data = np.asarray(cj["data"]).astype(dtype)
+    sig = f"joint|n={len(cj['prods'])}|{cj['sched']}" + ("|dataset" if cj["dataset"] else "")
+    try:
+        sg, dg, _ = geoboxes(ns, case)
+        _, dg2, _ = geoboxes(ns, alt)
+        darr = ns.da.from_array(data, chunks=(case["sy"], case["sx"]))
+        lazies, wholes, alone = [], [], []
+        for pr in cj["prods"]:
+            c = alt if pr["alt"] else case
+            g = dg2 if pr["alt"] else dg
+            attr, dn = nd_from_json(pr["attr"]), nd_from_json(pr["dn"])
+            wholes.append(ns.xr_reproject(ns.wrap_xr(data, sg, nodata=attr), g, resampling=pr["resampling"], dst_nodata=dn).values)
+            lz = ns.xr_reproject(ns.wrap_xr(darr, sg, nodata=attr), g, resampling=pr["resampling"], dst_nodata=dn,
+                                 chunks=(c["cy"], c["cx"]))
+            lazies.append(lz)
+            alone.append(lz.data.compute(scheduler="synchronous"))
+        runs = []
+        for order in (list(range(len(lazies))), list(reversed(range(len(lazies))))):
+            arrs = [lazies[i].data for i in order]
+            if cj["sched"] == "rtopo":
+                got = ns.dask.compute(*arrs, scheduler=RandomTopo(cj["sseed"]))
+            elif cj["sched"] == "sync":
+                got = ns.dask.compute(*arrs, scheduler="synchronous")
+            else:
+                got = ns.dask.compute(*arrs, scheduler="threads", num_workers=4)
+            runs.append(("dask.compute" + str(tuple(order)), dict(zip(order, got))))
+        same_dst = [i for i, pr in enumerate(cj["prods"]) if not pr["alt"]]
+        if cj["dataset"] and len(same_dst) >= 2:
+            ds = xr.Dataset({f"v{i}": lazies[i] for i in same_dst}).compute(scheduler="synchronous")
+            runs.append(("Dataset.compute", {i: ds[f"v{i}"].values for i in same_dst}))
+    except Exception as e:  # pylint: disable=broad-except
+        R.oracle(False, "joint-compute-raises", cj, f"{type(e).__name__}: {e}", sig=sig)
+        return False
+    ok, what = True, ""
+    for how, res in runs:
+        for i, got in res.items():
+            pr = cj["prods"][i]
+            if not (got.shape == alone[i].shape and same(got, alone[i])):
+                ok = False
+                what = what or (f"product {i} {pr} computed together with the others ({how}) differs from the same dask "
+                                f"array computed on its own ({int(np.sum(got != alone[i])) if got.shape == alone[i].shape else 'shape'} px)")
+            if pr["resampling"] == "nearest" and not (got.shape == wholes[i].shape and same(got, wholes[i])):
+                ok = False
+                what = what or (f"product {i} {pr} computed together with the others ({how}) differs from its in-memory "
+                                f"reprojection at {int(np.sum(~((got == wholes[i]) | ((got != got) & (wholes[i] != wholes[i])))))} pixels")
+    R.oracle(ok, "joint-compute-differs", cj, what, sig=sig)
+    # distinct products must not share task keys unless they are the same computation
+    names = [lz.data.name for lz in lazies]
+    for i in range(len(names)):
+        for j in range(i + 1, len(names)):
+            if names[i] == names[j] and not (alone[i].shape == alone[j].shape and same(alone[i], alone[j])):
+                R.oracle(False, "joint-compute-differs", cj,
+                         f"products {i} and {j} have different pixels but the same dask graph name {names[i]}", sig=sig + "|name")
+    return ok
+
+
+def joint_compute(R: Run, ns, rng, n, dts):
+    for _ in range(n):
+        joint_one(R, ns, gen_joint(rng, dts))
 
 
 # ------------------------------------------------------------------ correspondence pieces
@@ -774,7 +902,8 @@ def cross_crs(R: Run, ns, rng, n):
         cy, cx = rng.randint(1, dh + 1), rng.randint(1, dw + 1)
         sched, seed = rng.choice(SCHEDS), rng.randrange(10**6)
         resampling = rng.choice(["nearest", "nearest", "bilinear", "cubic"])
-        cj = {"kind": "cross", "sg": [sh, sw, res, lon0, lat0], "dg": [dh, dw, dres, x0 + offx, y0 + offy], "dtype": dtype,
+        lead = list(axis_chunks(rng, rng.randint(2, 5))) if rng.random() < 0.35 else None
+        cj = {"kind": "cross", "lead": lead, "sg": [sh, sw, res, lon0, lat0], "dg": [dh, dw, dres, x0 + offx, y0 + offy], "dtype": dtype,
               "attr_nd": attr, "dst_nd": dn, "sy": sy, "sx": sx, "cy": cy, "cx": cx, "sched": sched, "sseed": seed,
               "resampling": resampling}
         cross_one(R, ns, cj)
@@ -788,16 +917,30 @@ def cross_one(R: Run, ns, cj):
     dtype, attr, dn = cj["dtype"], cj["attr_nd"], cj["dst_nd"]
     sg = ns.GeoBox((sh, sw), ns.Affine(res, 0, lon0, 0, -res, lat0), "epsg:4326")
     dg = ns.GeoBox((dh, dw), ns.Affine(dres, 0, X0, 0, -dres, Y0), "epsg:3857")
-    data = (np.arange(sh * sw).reshape(sh, sw) % 250 + 1).astype(dtype)
-    sig = f"cross|{cj['resampling']}|{np.dtype(dtype).kind}|{cj['sched']}"
+    lead = cj.get("lead")
+    base = np.arange(sh * sw).reshape(sh, sw)
+    # every source pixel carries its own id (per plane) -> which pixel was sampled is visible
+    src_planes = [((base + 37 * t) % 250 + 1).astype(dtype) for t in range(sum(lead) if lead else 1)]
+    data = np.stack(src_planes) if lead else src_planes[0]
+    ax = 1 if lead else 0
+    chunks = ((tuple(lead),) if lead else ()) + (tuple(cj["sy"]), tuple(cj["sx"]))
+    sig = f"cross|{cj['resampling']}|{np.dtype(dtype).kind}|{cj['sched']}" + ("|lead" if lead else "")
     try:
-        whole = ns.xr_reproject(ns.wrap_xr(data, sg, nodata=attr), dg, resampling=cj["resampling"], dst_nodata=dn).values
-        lazy = ns.xr_reproject(ns.wrap_xr(ns.da.from_array(data, chunks=(tuple(cj["sy"]), tuple(cj["sx"]))), sg, nodata=attr), dg,
+        whole = ns.xr_reproject(ns.wrap_xr(data, sg, nodata=attr, axis=ax), dg, resampling=cj["resampling"], dst_nodata=dn).values
+        lazy = ns.xr_reproject(ns.wrap_xr(ns.da.from_array(data, chunks=chunks), sg, nodata=attr, axis=ax), dg,
                                resampling=cj["resampling"], dst_nodata=dn, chunks=(cj["cy"], cj["cx"]))
         chunked = compute(ns, lazy.data, cj["sched"], cj["sseed"])
     except Exception as e:  # pylint: disable=broad-except
-        R.oracle(False, "reproject-raises", cj, f"xr_reproject raised {type(e).__name__}: {e}", sig=sig)
+        R.oracle(False, "reproject-raises", cj, f"xr_reproject / compute raised {type(e).__name__}: {e}", sig=sig)
         return False
+    want_shape = ((sum(lead),) if lead else ()) + (dh, dw)
+    ok_shape = tuple(chunked.shape) == tuple(whole.shape) == tuple(lazy.shape) == want_shape
+    R.oracle(ok_shape, "result-shape-differs", cj,
+             f"computed dask result has shape {tuple(chunked.shape)}, declared {tuple(lazy.shape)}, in-memory "
+             f"{tuple(whole.shape)}, expected {want_shape} (time chunks {lead})", sig=sig + "|shape", trivial=not lead)
+    if not ok_shape:
+        return False
+    cps, wps = planes_of(chunked, lead, None), planes_of(whole, lead, None)
     # exact-ish source position of every destination pixel centre
     tr = pyproj.Transformer.from_crs("epsg:3857", "epsg:4326", always_xy=True)
     xs = X0 + (np.arange(dw) + 0.5) * dres
@@ -809,42 +952,70 @@ def cross_one(R: Run, ns, cj):
     margin = 0.3 if cj["resampling"] == "nearest" else 2.5  # kernel support for non-nearest
     far = (px < -margin) | (px > sw + margin) | (py < -margin) | (py > sh + margin)
     okall = True
-    for name, arr in (("chunked", chunked), ("whole", whole)):
-        vals = arr[far]
-        good = (vals != vals) if np.dtype(dtype).kind == "f" and math.isnan(float(fv)) else (vals == fv)
-        ok = bool(np.all(good))
+    for name, arrs in (("chunked", cps), ("whole", wps)):
+        ok, what = True, ""
+        for t, arr in enumerate(arrs):
+            vals = arr[far]
+            good = (vals != vals) if np.dtype(dtype).kind == "f" and math.isnan(float(fv)) else (vals == fv)
+            if not bool(np.all(good)):
+                ok = False
+                p = np.argwhere(far)[int(np.argmin(good))]
+                what = (f"{name} result: pixel {tuple(int(i) for i in p)} (plane {t}) lies {margin}+ px outside the source "
+                        f"but holds {arr[tuple(p)]}, expected fill {fv}")
+                break
         okall &= ok
-        what = ""
-        if not ok:
-            p = np.argwhere(far)[int(np.argmin(good))]
-            what = (f"{name} result: pixel {tuple(int(i) for i in p)} lies {margin}+ px outside the source but holds "
-                    f"{arr[tuple(p)]}, expected fill {fv}")
         R.oracle(ok, f"unreached-pixel-not-fill-cross-{name}", cj, what, sig=sig + "|fill", trivial=not far.any())
     if cj["resampling"] == "nearest":
         # unambiguous pixels: centre at least 0.3 px away from every source pixel edge and inside
         fx, fy = px - np.floor(px), py - np.floor(py)
         clear = (np.minimum(fx, 1 - fx) > 0.3) & (np.minimum(fy, 1 - fy) > 0.3)
         ins = clear & (px > 0) & (px < sw) & (py > 0) & (py < sh)
-        want = data[np.clip(np.floor(py).astype(int), 0, sh - 1), np.clip(np.floor(px).astype(int), 0, sw - 1)]
-        use = ins & (want != (attr if attr is not None else -12345))
-        ok = bool(np.all(chunked[use] == want[use])) and bool(np.all(whole[use] == want[use]))
+        ok, any_use = True, False
+        for sp, cpl, wpl in zip(src_planes, cps, wps):
+            want = sp[np.clip(np.floor(py).astype(int), 0, sh - 1), np.clip(np.floor(px).astype(int), 0, sw - 1)]
+            use = ins & (want != (attr if attr is not None else -12345))
+            any_use |= bool(use.any())
+            ok &= bool(np.all(cpl[use] == want[use])) and bool(np.all(wpl[use] == want[use]))
         okall &= ok
         R.oracle(ok, "cross-crs-sampled-pixel-differs", cj,
                  "a destination pixel whose centre maps well inside one source pixel does not hold that pixel's value"
-                 if not ok else "", sig=sig + "|value", trivial=not use.any())
+                 if not ok else "", sig=sig + "|value", trivial=not any_use)
     return okall
 
 
-def time_axis(R: Run, ns, rng, n):
-    for _ in range(n):
-        case = gen_case(rng, small=True)
+NONUNIFORM = {5: [(2, 2, 1), (1, 4), (4, 1), (1, 1, 3)], 4: [(3, 1), (1, 3), (1, 2, 1)], 3: [(2, 1), (1, 2)], 2: [(1, 1)]}
+
+
+def axis_chunks(rng, n):
+    r = rng.random()
+    if r < 0.55 and n in NONUNIFORM:
+        return rng.choice(NONUNIFORM[n])
+    return compositions(rng, n)
+
+
+def extra_axes(R: Run, ns, rng, n):
+    """leading (time) and / or trailing (band) axis with non-uniform and 1-long chunks, on destinations that
+    have chunks without any source (rotated -> general path, shifted, disjoint)"""
+    for i in range(n):
+        case = gen_case(rng, rotated=(i % 2 == 0), small=True)
+        if i % 2 == 0:
+            # many small destination chunks: some of them get no source at all
+            case["cy"], case["cx"] = rng.randint(1, 3), rng.randint(1, 3)
         dtype = rng.choice(["float32", "int16", "uint8", "bool", "float64"])
-        T = rng.randint(2, 4)
+        mode = rng.choice(["lead", "lead", "trail", "both"])
+        T = rng.randint(2, 5) if mode != "trail" else None
+        B = rng.randint(1, 4) if mode != "lead" else None
+        lead = axis_chunks(rng, T) if T else None
+        trail = axis_chunks(rng, B) if B else None
         attr = rng.choice([None, None, 3]) if dtype != "bool" else rng.choice([None, 0, 1])
         dn = rng.choice([None, None, attr])
-        data = np.stack([gen_data(rng, (case["sh"], case["sw"]), dtype, (attr, dn)) for _ in range(T)])
-        oracle_pair(R, ns, case, dtype, data, attr, dn, rng.choice(SCHEDS), rng.randrange(10**6), tdim=T,
-                    tchunk=rng.randint(1, T), tag="time")
+        nplanes = (T or 1) * (B or 1)
+        pl = np.stack([gen_data(rng, (case["sh"], case["sw"]), dtype, (attr, dn)) for _ in range(nplanes)])
+        data = pl.reshape(((T,) if T else ()) + ((B,) if B else ()) + pl.shape[-2:])
+        if B:
+            data = np.moveaxis(data, -3, -1)  # (..., H, W, B)
+        oracle_pair(R, ns, case, dtype, np.ascontiguousarray(data), attr, dn, rng.choice(SCHEDS), rng.randrange(10**6),
+                    lead=lead, trail=trail, tag="axes")
 
 
 # ------------------------------------------------------------------ entry points
@@ -908,7 +1079,8 @@ def run(R: Run):
         oracle_pair(R, ns, case, dtype, data, None, None, "sync", 0, tag="edge0")
 
     # 3. leading time axis, cross CRS, other resampling (oracle only)
-    time_axis(R, ns, rng, R.pick(120, 1000))
+    extra_axes(R, ns, rng, R.pick(160, 1200))
+    joint_compute(R, ns, rng, R.pick(70, 600), dts)
     cross_crs(R, ns, rng, R.pick(160, 1500))
 
     R.searchers.append(searcher)
@@ -949,6 +1121,11 @@ def replay(R: Run, rec) -> int:
     if not cj:
         print(rec.get("broken"))
         return 1
+    if cj.get("kind") == "joint":
+        joint_one(R, ns, cj)
+        for f in R.oracle_failures:
+            print("FAIL:", f["key"], f["what"])
+        return 1 if R.oracle_failures else 0
     if cj.get("kind") == "cross":
         ok = cross_one(R, ns, cj)
         for f in R.oracle_failures:
@@ -968,7 +1145,7 @@ def replay(R: Run, rec) -> int:
         print("result:\n", out, "\nexpected fill on unreached pixels:", fv)
         return 0 if bool(np.all(good)) else 1
     res = oracle_pair(R, ns, case, dtype, data, nd_from_json(cj["attr_nd"]), nd_from_json(cj["dst_nd"]), cj["sched"],
-                      cj["sseed"], cj.get("tdim", 0), cj.get("tchunk", 1), tag="replay")
+                      cj["sseed"], cj.get("lead"), cj.get("trail"), tag="replay")
     if res is not None:
         print("numpy-backed:\n", res[0])
         print("dask-backed:\n", res[1])
